@@ -309,8 +309,10 @@ def build(spec):
     if k == 'circle':
         _, d, c = spec
         sh = _c(c)
+        # center=None is a different code path on polar grids (radius shortcut): the model's `disk`
+        toks = ['disk', rat(d / 2)] if c is None else ['circle', rat(d / 2), rat(sh[0]), rat(sh[1])]
         return (hcipy.make_circular_aperture(d, center=None if c is None else np.array(c, float)),
-                ['circle', rat(d / 2), rat(sh[0]), rat(sh[1])], abs(d) + np.abs(sh).max(), True)
+                toks, abs(d) + np.abs(sh).max(), True)
     if k == 'ellipse':
         _, ds, c, ang = spec
         sh = _c(c)
@@ -362,7 +364,7 @@ def build(spec):
         return hcipy.make_spider_infinite(p, deg, w), toks, max(np.abs(p).max(), w), True
     if k == 'obstructed':
         _, D, ratio, nsp, w = spec
-        toks = ['sub', 'circle', rat(D / 2), '0', '0', 'circle', rat(D * ratio / 2), '0', '0']
+        toks = ['sub', 'disk', rat(D / 2), 'disk', rat(D * ratio / 2)]
         sp = ['const', '1']
         for a in np.linspace(0, 2 * np.pi, nsp, endpoint=False):
             _, t, _, _ = build(['spider', [0, 0], [float(D * np.cos(a)), float(D * np.sin(a))], w])
@@ -675,7 +677,136 @@ def shrink(gspec, sspec, over, hist=None):
     return sspec, real_failures(gspec, sspec, over, None, hist)[-1]
 
 
-def run_generic(ctx, gspec, sspec, over=None, want_model=True, corner=None, hist=None):
+def polar_request(op, tol, g, rest):
+    """request line for the polar code path: the radii and the direction cosines cos(theta), sin(theta) as the exact
+    rationals the floats are (the floats `_polar_to_cartesian` multiplies with)"""
+    r = np.array(g.r, float).ravel()
+    th = np.array(g.theta, float).ravel()
+    cs = np.empty(2 * len(r))
+    cs[0::2] = np.cos(th)
+    cs[1::2] = np.sin(th)
+    return 'C12 %s polar %s %s %s %s' % (op, tol, rat_list(r), rat_list(cs), rest)
+
+
+def path_probe(ctx, sspec, reps, tol):
+    """The path structure of the regular polygon on the real code: `func(grid, return_with_mask=True)` on every
+    representation (bounding slices + sub-array on separated grids, boolean mask + masked values otherwise) — for a
+    top-level polygon on the grid itself, for a segmented aperture on `grid.shifted(-p)` as make_segmented_aperture
+    calls it.  -> [(request line, real result, rep name, mode)]"""
+    import hcipy
+    k = sspec[0]
+    if k == 'regpoly':
+        inner, shifts = sspec, [None]
+    elif k == 'segmented' and sspec[1][0] == 'regpoly':
+        inner, shifts = sspec[1], [list(p) for p in sspec[2][:2]]
+    elif k == 'hexseg':
+        _, rings, f2f, gap, start = sspec
+        pts = hcipy.make_hexagonal_grid(f2f + gap, rings, pointy_top=False).points
+        if start != 0:
+            pts = pts[3 * (start - 1) * start + 1:]
+        inner, shifts = ['regpoly', 6, float(f2f * 2 / np.sqrt(3)), float(np.pi / 2), None], [[float(a), float(b)] for a, b in pts[:2]]
+    else:
+        return []
+    gen, toks, _, _ = build(inner)
+    out = []
+    for name, g in reps.items():
+        for p in shifts:
+            try:
+                gg = g if p is None else g.shifted(-np.array(p, float))
+                with warnings.catch_warnings():
+                    warnings.simplefilter('ignore')
+                    fsub, m = gen(gg, return_with_mask=True)
+                cart = gg.as_('cartesian')
+            except Exception as e:                              # noqa
+                ctx.disagree('C12 regsub', {'shape': sspec, 'rep': name, 'shift': p, 'detail': 'return_with_mask raises %s' % type(e).__name__},
+                             key='%s:return-with-mask-raises:%s' % (root_kind(sspec), rep_class(name)))
+                continue
+            if cart.is_separated:
+                ax, ay = [np.array(c, float) for c in cart.separated_coords]
+                mode = 'sep'
+            else:
+                ax, ay = np.array(cart.x, float), np.array(cart.y, float)
+                mode = 'pts'
+            out.append(('C12 regsub %s %s %s %s %s' % (mode, tol, rat_list(ax), rat_list(ay), ' '.join(toks[1:])), (fsub, m), name, mode))
+    return out
+
+
+def _bits(t):
+    return [c == '1' for c in t[1:-1].split(',')] if t != '[]' else []
+
+
+def _rats(t):
+    return [float(_frac(c)) for c in t[1:-1].split(',')] if t != '[]' else []
+
+
+def check_path(ctx, case, label, resp, real, name, mode):
+    """compare one `regsub` answer of the model with what the real code returned"""
+    fsub, m = real
+    parts = resp.split(' ')
+    ctx.traces_validated += 1
+    key = '%s:path:%s' % (label, rep_class(name))
+
+    def bad(detail):
+        ctx.disagree('C12 regsub ' + mode, dict(detail, case=case, rep=name), key=key)
+    if parts[0] != 'ok':
+        return bad({'model': resp})
+    if mode == 'sep':
+        edge = parts[-1] == '1'
+        m_y, m_x = m
+        real_none = np.size(fsub) == 0
+        real_desc = None if real_none else [int(m_y.start), int(m_x.start), int(m_y.stop - m_y.start), int(m_x.stop - m_x.start)]
+        if real_none and (m_y.stop - m_y.start != 0 or m_x.stop - m_x.start != 0):
+            return bad({'detail': 'empty sub-array with non-empty slices', 'impl': str(m)})
+        model_desc = None if parts[1] == 'none' else [int(t) for t in parts[2:6]]
+        if model_desc != real_desc:
+            if edge:
+                ctx.boundary_skipped += 1
+                ctx.count('regsub-edge-skipped')
+                return
+            return bad({'detail': 'bounding slices (y0, x0, nr, nc)', 'model': model_desc, 'impl': real_desc})
+        ctx.count('regsub:sep:' + ('none' if real_none else 'some'))
+        if real_none:
+            return
+        if list(np.shape(fsub)) != model_desc[2:]:
+            return bad({'detail': 'shape of the sub-array', 'model': model_desc[2:], 'impl': list(np.shape(fsub))})
+        mv, near = _rats(parts[6]), _bits(parts[7])
+        rv = np.array(fsub, float).ravel()
+        for i in range(len(rv)):
+            if near[i]:
+                ctx.boundary_skipped += 1
+                ctx.count('model-boundary-skipped')
+                continue
+            ctx.count('regsub-values-compared')
+            if abs(mv[i] - rv[i]) > 1e-9:
+                return bad({'detail': 'sub-array value', 'index': i, 'model': mv[i], 'impl': float(rv[i]), 'slices': real_desc})
+    else:
+        mm, mv, near, nearbox = _bits(parts[1]), _rats(parts[2]), _bits(parts[3]), _bits(parts[4])
+        rm = np.array(m, bool).ravel()
+        if len(mm) != len(rm):
+            return bad({'detail': 'mask length', 'model': len(mm), 'impl': len(rm)})
+        diff = [i for i in range(len(rm)) if mm[i] != bool(rm[i])]
+        if diff:
+            if all(nearbox[i] for i in diff):
+                ctx.boundary_skipped += 1
+                ctx.count('regsub-edge-skipped')
+                return
+            i = [j for j in diff if not nearbox[j]][0]
+            return bad({'detail': 'slow-path mask', 'index': i, 'model': mm[i], 'impl': bool(rm[i])})
+        ctx.count('regsub:pts')
+        rv = np.array(fsub, float).ravel()
+        if len(rv) != len(mv):
+            return bad({'detail': 'number of masked values', 'model': len(mv), 'impl': len(rv)})
+        for i in range(len(rv)):
+            if near[i]:
+                ctx.boundary_skipped += 1
+                ctx.count('model-boundary-skipped')
+                continue
+            ctx.count('regsub-values-compared')
+            if abs(mv[i] - rv[i]) > 1e-9:
+                return bad({'detail': 'masked value', 'index': i, 'model': mv[i], 'impl': float(rv[i])})
+
+
+def run_generic(ctx, gspec, sspec, over=None, want_model=True, corner=None, hist=None, probe_paths=True):
     """Returns the model requests and a closure that checks the responses."""
     reps, xs, ys, sep, toks, scale, res, sup, fails = real_failures(gspec, sspec, over, ctx, hist)
     label = top_kind(sspec)
@@ -707,12 +838,22 @@ def run_generic(ctx, gspec, sspec, over=None, want_model=True, corner=None, hist
     if sep is not None:
         lines.append(('sep', 'C12 eval sep %s %s %s %s' % (tol, rat_list(sep[0]), rat_list(sep[1]), ' '.join(toks))))
     lines.append(('pts', 'C12 eval pts %s %s %s %s' % (tol, rat_list(xs), rat_list(ys), ' '.join(toks))))
+    pol = reps.get('polar')
+    if pol is not None:
+        # the polar code path itself (radius shortcut, PolarGrid.rotate, conversion) — evalPolar of the model
+        lines.append(('polar', polar_request('eval', tol, pol, ' '.join(toks))))
+        ctx.count('polar-path-cases')
     if sup:
         ov = (np.round(over) * np.ones(2)).astype(int)
         lines.append(('super', 'C12 super %d %d %s %s %s %s' % (ov[0], ov[1], tol, rat_list(sep[0]), rat_list(sep[1]), ' '.join(toks))))
+    probes = path_probe(ctx, sspec, reps, tol) if probe_paths else []
+    for req, real, name, mode in probes:
+        lines.append(('regsub', req))
 
     def check(out):
-        for (mode, req), resp in zip(lines, out):
+        for (req, real, name, mode), resp in zip(probes, out[len(lines) - len(probes):]):
+            check_path(ctx, case, label, resp, real, name, mode)
+        for (mode, req), resp in zip(lines[:len(lines) - len(probes)], out):
             parts = resp.split(' ')
             if parts[0] != 'ok':
                 ctx.disagree('C12 ' + mode, {'case': case, 'model': resp})
@@ -725,6 +866,8 @@ def run_generic(ctx, gspec, sspec, over=None, want_model=True, corner=None, hist
                 targets = [(n, sup.get(n)) for n in ('regular', 'separated')]
             elif mode == 'sep':
                 targets = [(n, res.get(n)) for n in ('regular', 'separated', 'separated-indep')]
+            elif mode == 'polar':
+                targets = [(n, res.get(n)) for n in ('polar', 'polar-separated')]
             else:
                 targets = [(n, res.get(n)) for n in ('unstructured', 'unstructured-indep', 'polar', 'polar-separated')]
             for name, rv in targets:
@@ -1045,6 +1188,8 @@ def run_keck(ctx, kw, gseed, fam):
     if sep is not None:
         lines.append(('sep', 'C12 keck sep %s %s %s %s' % (tol, rat_list(sep[0]), rat_list(sep[1]), ' '.join(params))))
     lines.append(('pts', 'C12 keck pts %s %s %s %s' % (tol, rat_list(xs), rat_list(ys), ' '.join(params))))
+    if reps.get('polar') is not None:
+        lines.append(('polar', polar_request('keck', tol, reps['polar'], ' '.join(params))))
 
     def check(out):
         for (mode, req), resp in zip(lines, out):
@@ -1056,7 +1201,8 @@ def run_keck(ctx, kw, gseed, fam):
             near = [t == '1' for t in parts[2][1:-1].split(',')] if parts[2] != '[]' else []
             if parts[3] != '1':
                 ctx.disagree('C12 model-self', {'case': case, 'detail': 'code-path model differs from point semantics', 'mode': mode})
-            names = ('regular', 'separated', 'separated-indep') if mode == 'sep' else ('unstructured', 'unstructured-indep', 'polar', 'polar-separated')
+            names = (('regular', 'separated', 'separated-indep') if mode == 'sep' else ('polar', 'polar-separated') if mode == 'polar'
+                     else ('unstructured', 'unstructured-indep', 'polar', 'polar-separated'))
             for name in names:
                 rv = res.get(name)
                 if rv is None:
@@ -1077,6 +1223,222 @@ def run_keck(ctx, kw, gseed, fam):
                                                           'model': mv[i], 'impl': float(rv[i])}, key='keck:model:%s' % name)
                         break
     return [l for _, l in lines], check
+
+
+# ---------------------------------------------------------------------------------------------
+# a non-hexagonal telescope pupil inside the model: the VLT and its four quadrants
+
+def vlt_params(kw):
+    """the constants of make_vlt_aperture, computed with its own NumPy expressions -> (model tokens after the segment
+    index, pupil diameter)"""
+    telescope = kw.get('telescope', 'ut3')
+    if telescope in ('ut1', 'ut2', 'ut3'):
+        pupil_diameter = 8.0
+        central_obscuration_ratio = 1.116 / pupil_diameter
+    else:
+        pupil_diameter = 8.1196
+        central_obscuration_ratio = 0.6465 * 2 / pupil_diameter
+    spider_width = 0.040
+    spider_offset = 0.4045
+    spider_outer_radius = 4.2197
+    outer_diameter_M3_stow = 1.070
+    angle_between_spiders = 101
+    if kw.get('normalized'):
+        spider_width /= pupil_diameter
+        spider_offset /= pupil_diameter
+        spider_outer_radius /= pupil_diameter
+        outer_diameter_M3_stow /= pupil_diameter
+        pupil_diameter = 1.0
+    spider_inner_radius = spider_offset / np.cos(np.radians(45 - (angle_between_spiders - 90) / 2))
+    d45 = np.array([np.cos(np.pi / 4), np.sin(np.pi / 4)])
+    se = [(-spider_inner_radius * d45, spider_outer_radius * np.array([np.cos(np.pi), np.sin(np.pi)])),
+          (-spider_inner_radius * d45, spider_outer_radius * np.array([np.cos(-np.pi / 2), np.sin(-np.pi / 2)])),
+          (spider_inner_radius * d45, spider_outer_radius * np.array([np.cos(0), np.sin(0)])),
+          (spider_inner_radius * d45, spider_outer_radius * np.array([np.cos(np.pi / 2), np.sin(np.pi / 2)]))]
+    sp = []
+    if kw.get('with_spiders', True):
+        for a, b in se:
+            _, t, _, _ = build(['spider', [float(a[0]), float(a[1])], [float(b[0]), float(b[1])], spider_width])
+            sp += t[1:]
+    flat = []
+    for a, b in se:
+        flat += [a[0], a[1], b[0], b[1]]
+    m3 = []
+    if kw.get('with_M3_cover'):
+        _, t, _, _ = build(['rect', outer_diameter_M3_stow, [outer_diameter_M3_stow / 2, 0]])
+        m3 = t[1:]
+    central = pupil_diameter * central_obscuration_ratio             # make_obstructed_circular_aperture
+    return [rat(pupil_diameter / 2), rat(central / 2), '[' + ','.join(sp) + ']', rat_list(flat), '[' + ','.join(m3) + ']'], pupil_diameter
+
+
+VLT_CONFIGS = [{}, {'normalized': True}, {'with_spiders': False}, {'telescope': 'ut4', 'with_M3_cover': True},
+               {'telescope': 'ut4', 'normalized': True, 'with_M3_cover': True, 'with_spiders': False}, {'telescope': 'ut1', 'with_M3_cover': True}]
+
+
+def run_vlt(ctx, kw, gseed, fam, nseg=2):
+    """make_vlt_aperture and its quadrants against the model's vltShape / vltSegment on every representation"""
+    import hcipy
+    rng = np.random.default_rng(gseed)
+    with warnings.catch_warnings():
+        warnings.simplefilter('ignore')
+        gen, segs = hcipy.make_vlt_aperture(return_segments=True, **kw)
+    params, D = vlt_params(kw)
+    gspec = gen_grid_family(rng, fam, nmax=11, half=0.55 * D * float(rng.uniform(0.15, 1.1)), exact=False)
+    reps, xs, ys, sep = make_reps(gspec)
+    scale = scale_of(xs, ys, D)
+    case = {'kind': 'vlt', 'kw': kw, 'gseed': int(gseed), 'fam': fam, 'grid': gspec, 'nseg': nseg}
+    which = ['-'] + [str(int(i)) for i in sorted(rng.choice(4, nseg, replace=False))]
+    tol = rat(REL_TOL * scale)
+    lines = []
+    results = {}
+    for w in which:
+        g = gen if w == '-' else segs[int(w)]
+        lab = 'vlt' if w == '-' else 'vlt:segment'
+        res, fails = oracle(ctx, lab, g, reps, xs, ys, scale, {0.0, 1.0}, True)
+        results[w] = res
+        for key, what in fails:
+            ctx.violation(key, what + ' [%r, segment %s]' % (kw, w), case)
+        nz = [v for v in res.values() if v is not None]
+        mixed = bool(nz) and 0 < np.count_nonzero(nz[0]) < len(xs)
+        ctx.case(None, ('vlt-model', w, tuple(sorted(kw.items())), fam, len(xs), int(np.count_nonzero(nz[0]))) if mixed else None)
+        rest = '%s %s' % (w, ' '.join(params))
+        if sep is not None:
+            lines.append(('sep', w, 'C12 vlt sep %s %s %s %s' % (tol, rat_list(sep[0]), rat_list(sep[1]), rest)))
+        lines.append(('pts', w, 'C12 vlt pts %s %s %s %s' % (tol, rat_list(xs), rat_list(ys), rest)))
+        if reps.get('polar') is not None:
+            lines.append(('polar', w, polar_request('vlt', tol, reps['polar'], rest)))
+    ctx.count('vlt-model-cases')
+    for feat in grid_features(gspec, sep):
+        ctx.count('cover:vlt(model)|' + feat)
+
+    def check(out):
+        for (mode, w, req), resp in zip(lines, out):
+            parts = resp.split(' ')
+            if parts[0] != 'ok':
+                ctx.disagree('C12 vlt ' + mode, {'case': case, 'segment': w, 'model': resp})
+                continue
+            mv, near = _rats(parts[1]), _bits(parts[2])
+            if parts[3] != '1':
+                ctx.disagree('C12 model-self', {'case': case, 'detail': 'code-path model differs from point semantics', 'mode': mode})
+            names = (('regular', 'separated', 'separated-indep') if mode == 'sep' else ('polar', 'polar-separated') if mode == 'polar'
+                     else ('unstructured', 'unstructured-indep', 'polar', 'polar-separated'))
+            for name in names:
+                rv = results[w].get(name)
+                if rv is None:
+                    continue
+                ctx.traces_validated += 1
+                if len(mv) != len(rv):
+                    ctx.disagree('C12 vlt ' + mode, {'case': case, 'detail': 'length'})
+                    continue
+                for i in range(len(rv)):
+                    if near[i]:
+                        ctx.boundary_skipped += 1
+                        ctx.count('model-boundary-skipped')
+                        continue
+                    ctx.count('points-compared')
+                    ctx.count('vlt-points-compared')
+                    if abs(mv[i] - rv[i]) > 1e-9:
+                        ctx.disagree('C12 vlt ' + mode, {'case': case, 'segment': w, 'rep': name, 'index': i, 'point': [float(xs[i]), float(ys[i])],
+                                                         'model': mv[i], 'impl': float(rv[i])},
+                                     key='vlt%s:model:%s' % ('' if w == '-' else ':segment', name))
+                        break
+    return [l for _, _, l in lines], check
+
+
+# ---------------------------------------------------------------------------------------------
+# evaluate_supersampled: where it is defined, and which exception otherwise (model: supersampled_defined_iff)
+
+SUPER_ERROR_CASES = [
+    (['regular', [4, 3], [0.5, 0.5], [-0.75, -0.5]], 0), (['regular', [4, 3], [0.5, 0.5], [-0.75, -0.5]], [0, 2]),
+    (['regular', [4, 3], [0.5, 0.5], [-0.75, -0.5]], [2, 0]), (['regular', [4, 3], [0.5, 0.5], [-0.75, -0.5]], 0.4),
+    (['regular', [4, 3], [0.5, 0.5], [-0.75, -0.5]], 0.6), (['regular', [4, 3], [0.5, 0.5], [-0.75, -0.5]], [1, 3]),
+    (['sep', [0.5], [0.0, 1.0]], 2), (['sep', [0.5], [0.0, 1.0]], 0), (['sep', [0.5, 1.0], [0.25]], [2, 0]),
+    (['sep', [0.5], [0.25]], 1), (['sep', [1.0, 0.5], [0.25, 0.0, -1.0]], [0, 0]),
+]
+
+
+def run_super_errors(ctx):
+    """evaluate_supersampled on separated grids incl. one-point axes and oversampling factors that round to 0: the model
+    must be defined exactly where the code is, and name the same exception"""
+    import hcipy
+    cases = list(SUPER_ERROR_CASES)
+    for _ in range(ctx.scale(12, 60)):
+        fam = str(ctx.rng.choice(['regular', 'sep-asc', 'sep-desc', 'size1-x', 'size1-y']))
+        over = [int(ctx.rng.integers(0, 3)), int(ctx.rng.integers(0, 3))] if ctx.rng.random() < 0.7 else float(ctx.rng.choice([0, 0.3, 0.5, 0.7, 1, 2]))
+        cases.append((gen_grid_family(ctx.rng, fam, nmax=5), over))
+    spec = ['circle', 1.5, [0.25, 0.0]]
+    gen, toks, size, _ = build(spec)
+    lines, real = [], []
+    for gspec, over in cases:
+        reps, xs, ys, sep = make_reps(gspec)
+        g = reps.get('regular', reps.get('separated'))
+        try:
+            with warnings.catch_warnings():
+                warnings.simplefilter('ignore')
+                f = hcipy.evaluate_supersampled(gen, g, over)
+            r = ('ok', np.array(f, float).ravel())
+        except Exception as e:                                  # noqa
+            r = ('err', type(e).__name__)
+        ov = (np.round(over) * np.ones(2)).astype(int)
+        if ov.min() < 0:
+            continue
+        real.append((gspec, over, r))
+        lines.append('C12 super %d %d %s %s %s %s' % (ov[0], ov[1], rat(REL_TOL * scale_of(xs, ys, size)), rat_list(sep[0]), rat_list(sep[1]), ' '.join(toks)))
+    out = ctx.model(lines)
+    names = {'IndexError': 'err index', 'ZeroDivisionError': 'err zerodiv'}
+    for (gspec, over, r), resp in zip(real, out):
+        ctx.traces_validated += 1
+        case = {'kind': 'super-error', 'grid': gspec, 'over': over}
+        if r[0] == 'err':
+            ctx.count('super-defined:' + r[1])
+            if names.get(r[1]) != resp:
+                ctx.disagree('C12 super-defined', {'case': case, 'impl': r[1], 'model': resp[:60]}, key='super:error-kind')
+        else:
+            ctx.count('super-defined:ok')
+            parts = resp.split(' ')
+            if parts[0] != 'ok':
+                ctx.disagree('C12 super-defined', {'case': case, 'impl': 'ok', 'model': resp}, key='super:error-kind')
+                continue
+            mv, near = _rats(parts[1]), _bits(parts[2])
+            for i in range(len(mv)):
+                if not near[i] and abs(mv[i] - r[1][i]) > 1e-9:
+                    ctx.disagree('C12 super', {'case': case, 'index': i, 'model': mv[i], 'impl': float(r[1][i])}, key='super:value')
+                    break
+
+
+# ---------------------------------------------------------------------------------------------
+# negative diameters: outside the domain of the property; the model predicts what the code does (documented, not reported)
+
+def run_negative_diameter(ctx):
+    """`make_circular_aperture(d)` with d < 0 and no centre: the Cartesian paths square the radius (a disk of radius |d|/2),
+    the polar shortcut `r <= d/2` is empty.  theorem polar_circle_negative_diameter_counterexample says the model does the
+    same; here both are run and compared, and the representation dependence is recorded (not a VIOLATION: a negative
+    diameter is not a size)."""
+    import hcipy
+    seen = 0
+    for gspec, d in [(['regular', [8, 8], [0.5, 0.5], [-1.75, -1.75]], -1.0), (CORNER_GRIDS[1], -1.5), (CORNER_GRIDS[0], -2.25),
+                     (['polarsep', [0.0, 0.5, 1.0], [0.0, 1.0, 2.0]], -0.75)]:
+        reps, xs, ys, sep = make_reps(gspec)
+        gen = hcipy.make_circular_aperture(d)
+        toks = ['disk', rat(d / 2)]
+        tol = rat(REL_TOL * scale_of(xs, ys, abs(d)))
+        cart = evaluate(gen, reps['unstructured'])[0]
+        pol = evaluate(gen, reps['polar'])[0]
+        out = ctx.model(['C12 eval pts %s %s %s %s' % (tol, rat_list(xs), rat_list(ys), ' '.join(toks)), polar_request('eval', tol, reps['polar'], ' '.join(toks))])
+        for rv, resp, nm in ((cart, out[0], 'unstructured'), (pol, out[1], 'polar')):
+            parts = resp.split(' ')
+            mv, near = _rats(parts[1]), _bits(parts[2])
+            ctx.traces_validated += 1
+            bad = [i for i in range(len(mv)) if not near[i] and abs(mv[i] - rv[i]) > 1e-9]
+            if rv is None or bad:
+                ctx.disagree('C12 negative-diameter', {'grid': gspec, 'diameter': d, 'rep': nm, 'index': bad[:3]}, key='negative-diameter:model:' + nm)
+        if out[1].split(' ')[3] != '0':
+            ctx.disagree('C12 negative-diameter', {'grid': gspec, 'diameter': d, 'detail': 'the model does not show the representation dependence'})
+        if np.count_nonzero(cart != pol):
+            seen += 1
+            ctx.count('negative-diameter:representation-dependent')
+        ctx.extra.setdefault('negative_diameter', []).append({'diameter': d, 'grid': gspec[0], 'cartesian_pixels': int(cart.sum()), 'polar_pixels': int(pol.sum())})
+    return seen
 
 
 # D120: VLT segment generators on a separated grid with a single row
@@ -1176,7 +1538,18 @@ def run(ctx):
                 l, chk = run_keck(ctx, kw, int(ctx.rng.integers(0, 2 ** 31)), fam)
                 checks.append((len(lines), len(l), chk))
                 lines += l
+    # the VLT pupil and its quadrants inside the model, on every grid family
+    for _ in range(ctx.scale(1, 4)):
+        for kw in VLT_CONFIGS:
+            for fam in FAMILIES:
+                if ctx.quick() and ctx.rng.random() < 0.8:
+                    continue
+                l, chk = run_vlt(ctx, kw, int(ctx.rng.integers(0, 2 ** 31)), fam, nseg=ctx.scale(1, 2))
+                checks.append((len(lines), len(l), chk))
+                lines += l
     check_hexqr(ctx)
+    run_super_errors(ctx)
+    run_negative_diameter(ctx)
     out = ctx.model(lines)
     for base, cnt, chk in checks:
         chk(out[base:base + cnt])
@@ -1257,6 +1630,8 @@ def run(ctx):
 def replay(ctx, case):
     if case.get('kind') == 'keck':
         run_keck(ctx, case['kw'], case['gseed'], case['fam'])
+    elif case.get('kind') == 'vlt':
+        run_vlt(ctx, case['kw'], case['gseed'], case['fam'], case.get('nseg', 2))
     elif case.get('kind') == 'pupil':
         run_pupil(ctx, case['name'], case['kw'], case['gseed'], case.get('over'), case.get('fam'), case.get('gspec_fixed'))
     else:
